@@ -60,61 +60,61 @@ SPECS = {}
 
 # --- expiring-key tree -------------------------------------------------------
 SPECS["C01"] = {
-    "quick": [K("ktree", 3, 3, KA + ",o_pred"), K("ktree", 3, 2, KA + ",o_pred", mode="full"), K("ktree", 8, 0, "fleby,clear,o_pred", mode="shape", label="ktree N=8 T=0 shape (arena growth)")],
+    "quick": [K("ktree", 4, 3, KA + ",o_pred"), K("ktree", 3, 3, KA + ",o_pred"), K("ktree", 3, 2, KA + ",o_pred", mode="full"), K("ktree", 8, 0, "fleby,clear,o_pred", mode="shape", label="ktree N=8 T=0 shape (arena growth)")],
     "thorough": [K("ktree", 4, 4, KA + ",o_pred"), K("ktree", 5, 2, KA + ",o_pred", cap_s=900), K("ktree", 3, 3, KA + ",o_pred", mode="full"),
                  K("ktree", 8, 1, "fle,fleby,clear,o_pred", mode="shape", cap_s=900), K("ktree", 4, 3, KA + ",o_pred", hint=9)],
 }
 SPECS["C06"] = {
-    "quick": [K("ktree", 3, 3, KA + ",o_get"), K("ktree", 3, 2, KA + ",o_get", mode="full"), K("ktree", 8, 0, "get,clear,o_get", mode="shape")],
+    "quick": [K("ktree", 4, 3, KA + ",o_get"), K("ktree", 3, 3, KA + ",o_get"), K("ktree", 3, 2, KA + ",o_get", mode="full"), K("ktree", 8, 0, "get,clear,o_get", mode="shape")],
     "thorough": [K("ktree", 4, 4, KA + ",o_get"), K("ktree", 5, 2, KA + ",o_get", cap_s=900), K("ktree", 3, 3, KA + ",o_get", mode="full"), K("ktree", 9, 1, "get,clear,o_get", mode="shape", cap_s=900)],
 }
 SPECS["C07"] = {
-    "quick": [K("ktree", 3, 3, KA + ",o_export"), K("klist", 3, 3, KA + ",o_export"), K("ktree", 3, 2, KA + ",o_export", mode="full")],
+    "quick": [K("ktree", 4, 2, KA + ",o_export"), K("ktree", 3, 3, KA + ",o_export"), K("klist", 3, 3, KA + ",o_export"), K("ktree", 3, 2, KA + ",o_export", mode="full")],
     "thorough": [K("ktree", 4, 4, KA + ",o_export", cap_s=1200), K("klist", 4, 4, KA + ",o_export"), K("ktree", 3, 3, KA + ",o_export", mode="full"), K("ktree", 8, 0, "fleby,clear,o_export", mode="shape")],
 }
 SPECS["C19"] = {
-    "quick": [K("ktree", 3, 2, KA + ",o_cap"), K("klist", 3, 2, KA + ",o_cap"), K("ktree", 8, 0, "fleby,clear,o_cap", mode="shape"), SW("export-sizes", kmax=14, as_gb=6)],
+    "quick": [K("ktree", 4, 2, KA + ",o_cap"), K("ktree", 3, 2, KA + ",o_cap"), K("klist", 3, 2, KA + ",o_cap"), K("ktree", 8, 0, "fleby,clear,o_cap", mode="shape"), SW("export-sizes", kmax=14, as_gb=6)],
     "thorough": [K("ktree", 4, 3, KA + ",o_cap"), K("ktree", 9, 1, "fleby,o_cap", mode="shape", cap_s=900), SW("export-sizes", kmax=21, list_max=8192, as_gb=8)],
 }
 SPECS["C20"] = {
-    "quick": [K("ktree", 3, 3, KA + ",o_log"), K("klist", 3, 3, KA + ",o_log"), K("ktree", 3, 2, KA + ",o_log", mode="full")],
+    "quick": [K("ktree", 4, 3, KA + ",o_log"), K("ktree", 3, 3, KA + ",o_log"), K("klist", 3, 3, KA + ",o_log"), K("ktree", 3, 2, KA + ",o_log", mode="full")],
     "thorough": [K("ktree", 4, 4, KA + ",o_log"), K("klist", 4, 4, KA + ",o_log"), K("ktree", 5, 2, KA + ",o_log", cap_s=900), K("ktree", 8, 0, "fleby,get,clear,o_log", mode="shape")],
 }
 
 # --- map / set ---------------------------------------------------------------
 SPECS["C04"] = {
-    "quick": [M("maptree", 5, MA + ",o_ref"), M("maptree", 4, MAW + ",o_ref", pay="heap", hint=0), M("maptree", 4, MAW + ",o_ref", hint=1),
+    "quick": [M("maptree", 6, MA + ",o_ref"), M("maptree", 4, MAW + ",o_ref", pay="heap", hint=0), M("maptree", 4, MAW + ",o_ref", hint=1),
               M("maptree", 10, "del,clear,o_ref", mode="shape"), M("maptree", 10, "del,clear,o_ref", mode="shape", hint=9), M("maptree", 3, MA + ",o_ref", mode="full"), M("maptree", 3, MAW + ",o_ref", hint=64)],
     "thorough": [M("maptree", 7, MA + ",o_ref"), M("maptree", 6, MA + ",o_ref", pay="heap", hint=0), M("maptree", 5, MAW + ",o_ref", hint=1),
                  M("maptree", 12, "del,clear,o_ref", mode="shape"), M("maptree", 12, "del,clear,o_ref", mode="shape", hint=9), M("maptree", 4, "del,clear,o_ref", mode="full", max_states=30000000, cap_s=1200), M("maptree", 5, MAW + ",o_ref", hint=64)],
 }
 SPECS["C05"] = {
-    "quick": [M("settree", 5, MA + ",o_ref"), M("settree", 4, MAW + ",o_ref", pay="heap", hint=0), M("settree", 5, MA + ",o_ref", pay="bare", hint=1),
+    "quick": [M("settree", 6, MA + ",o_ref"), M("settree", 4, MAW + ",o_ref", pay="heap", hint=0), M("settree", 6, MA + ",o_ref", pay="bare", hint=1),
               M("settree", 10, "del,clear,o_ref", mode="shape"), M("settree", 3, MA + ",o_ref", mode="full")],
     "thorough": [M("settree", 7, MA + ",o_ref"), M("settree", 6, MA + ",o_ref", pay="heap", hint=0), M("settree", 6, MA + ",o_ref", pay="bare", hint=1), M("settree", 5, MAW + ",o_ref", hint=64),
                  M("settree", 12, "del,clear,o_ref", mode="shape", hint=9), M("settree", 4, "del,clear,o_ref", mode="full", max_states=30000000, cap_s=1200)],
 }
 SPECS["C08"] = {
-    "quick": [M("maptree", 5, MA + ",o_handle"), M("settree", 5, MA + ",o_handle"), M("maptree", 4, MAW + ",o_handle,o_ref", pay="heap"), M("settree", 4, MAW + ",o_handle,o_ref"),
+    "quick": [M("maptree", 6, MA + ",o_handle"), M("settree", 6, MA + ",o_handle"), M("maptree", 4, MAW + ",o_handle,o_ref", pay="heap"), M("settree", 4, MAW + ",o_handle,o_ref"),
               M("maptree", 10, "delh,clear,o_handle", mode="shape"), M("settree", 10, "delh,clear,o_handle", mode="shape", hint=9)],
     "thorough": [M("maptree", 7, MA + ",o_handle"), M("settree", 7, MA + ",o_handle"), M("maptree", 5, MAW + ",o_handle,o_ref", pay="heap"), M("settree", 5, MAW + ",o_handle,o_ref"),
                  M("maptree", 12, "delh,clear,o_handle", mode="shape"), M("settree", 12, "delh,clear,o_handle", mode="shape", hint=9)],
 }
 SPECS["C09"] = {
-    "quick": [M("settree", 5, MA + ",o_neigh"), M("settree", 5, MA + ",o_neigh", pay="bare"), M("settree", 10, "del,clear,o_neigh", mode="shape"), M("settree", 3, MA + ",o_neigh", mode="full")],
+    "quick": [M("settree", 6, MA + ",o_neigh"), M("settree", 6, MA + ",o_neigh", pay="bare"), M("settree", 10, "del,clear,o_neigh", mode="shape"), M("settree", 3, MA + ",o_neigh", mode="full")],
     "thorough": [M("settree", 7, MA + ",o_neigh"), M("settree", 6, MA + ",o_neigh", pay="bare"), M("settree", 12, "del,clear,o_neigh", mode="shape", hint=9), M("settree", 6, MA + ",o_neigh", pay="heap", hint=64)],
 }
 SPECS["C17"] = {
-    "quick": [M("maptree", 5, MA + ",o_hstab"), M("settree", 5, MA + ",o_hstab"), M("maptree", 10, "del,clear,o_hstab", mode="shape"), M("settree", 10, "del,clear,o_hstab", mode="shape", hint=9), M("maptree", 4, MAW + ",o_hstab", pay="heap")],
+    "quick": [M("maptree", 6, MA + ",o_hstab"), M("settree", 6, MA + ",o_hstab"), M("maptree", 10, "del,clear,o_hstab", mode="shape"), M("settree", 10, "del,clear,o_hstab", mode="shape", hint=9), M("maptree", 4, MAW + ",o_hstab", pay="heap")],
     "thorough": [M("maptree", 7, MA + ",o_hstab"), M("settree", 7, MA + ",o_hstab"), M("maptree", 12, "del,clear,o_hstab", mode="shape"), M("settree", 12, "del,clear,o_hstab", mode="shape", hint=9), M("maptree", 5, MAW + ",o_hstab", pay="heap", hint=1)],
 }
 SPECS["C02"] = {
-    "quick": [M("maptree", 5, MA + ",o_rb,histogram"), M("settree", 5, MA + ",o_rb,histogram"), K("ktree", 3, 3, KA + ",o_rb"), M("maptree", 10, "del,clear,o_rb", mode="shape"), M("settree", 10, "del,clear,o_rb", mode="shape"), K("ktree", 8, 0, "fleby,clear,o_rb", mode="shape")],
+    "quick": [K("ktree", 4, 2, KA + ",o_rb"), M("maptree", 6, MA + ",o_rb,histogram"), M("settree", 6, MA + ",o_rb,histogram"), K("ktree", 3, 3, KA + ",o_rb"), M("maptree", 10, "del,clear,o_rb,histogram", mode="shape"), M("settree", 10, "del,clear,o_rb,histogram", mode="shape"), K("ktree", 8, 0, "fleby,clear,o_rb", mode="shape")],
     "thorough": [M("maptree", 7, MA + ",o_rb,histogram"), M("settree", 7, MA + ",o_rb,histogram"), K("ktree", 4, 4, KA + ",o_rb"), K("ktree", 5, 2, KA + ",o_rb", cap_s=900),
                  M("maptree", 12, "del,clear,o_rb", mode="shape"), M("settree", 12, "del,clear,o_rb", mode="shape", hint=9), K("ktree", 8, 1, "fle,fleby,clear,o_rb", mode="shape", cap_s=900)],
 }
 SPECS["C11"] = {
-    "quick": [M("maptree", 5, MA + ",o_arena"), M("settree", 5, MA + ",o_arena"), K("ktree", 3, 3, KA + ",o_arena"),
+    "quick": [K("ktree", 4, 2, KA + ",o_arena"), M("maptree", 6, MA + ",o_arena"), M("settree", 6, MA + ",o_arena"), K("ktree", 3, 3, KA + ",o_arena"),
               M("maptree", 4, MA + ",o_arena", hint=0), M("settree", 4, MA + ",o_arena", hint=1), K("ktree", 3, 2, KA + ",o_arena", hint=0),
               M("maptree", 10, "del,clear,o_arena", mode="shape"), M("settree", 10, "del,clear,o_arena", mode="shape", hint=9), K("ktree", 8, 0, "fleby,clear,o_arena", mode="shape", hint=9),
               M("maptree", 4, MA + ",o_arena", hint=64), K("ktree", 3, 2, KA + ",o_arena", hint=64)],
@@ -124,7 +124,7 @@ SPECS["C11"] = {
                  K("ktree", 9, 1, "fleby,clear,o_arena", mode="shape", hint=9, cap_s=900), M("settree", 6, MA + ",o_arena", hint=64), K("ktree", 4, 3, KA + ",o_arena", hint=64)],
 }
 SPECS["C12"] = {
-    "quick": [M("maptree", 4, MA + ",o_twin,o_ref,o_handle"), M("settree", 4, MA + ",o_twin,o_ref,o_handle"), M("maplist", 4, MA + ",o_twin,o_ref,o_handle"), M("setlist", 4, MA + ",o_twin,o_ref,o_handle"),
+    "quick": [K("ktree", 4, 2, KA + ",o_twin,o_pred"), M("maptree", 4, MA + ",o_twin,o_ref,o_handle"), M("settree", 4, MA + ",o_twin,o_ref,o_handle"), M("maplist", 4, MA + ",o_twin,o_ref,o_handle"), M("setlist", 4, MA + ",o_twin,o_ref,o_handle"),
               K("ktree", 3, 2, KA + ",o_twin,o_pred"), K("klist", 3, 2, KA + ",o_twin,o_pred"), S(0, 31, SA + ",o_twin,o_query"), S(-7, 92, SA + ",o_twin,o_query"),
               M("maptree", 10, "del,clear,o_twin,o_ref", mode="shape"), M("settree", 10, "del,clear,o_twin,o_ref", mode="shape", hint=9), K("ktree", 8, 0, "fleby,clear,o_twin,o_pred", mode="shape")],
     "thorough": [M("maptree", 6, MA + ",o_twin,o_ref,o_handle"), M("settree", 6, MA + ",o_twin,o_ref,o_handle"), M("maplist", 6, MAW + ",o_twin,o_ref,o_handle"), M("setlist", 6, MAW + ",o_twin,o_ref,o_handle"),
@@ -140,8 +140,8 @@ SPECS["C13"] = {
 
 # --- segment tree --------------------------------------------------------------
 SPECS["C03"] = {
-    "quick": [SW("pairs", "sequential", emax=2, t=2)] + [S(lo, hi, SA + ",o_query") for (lo, hi) in DOMAINS_Q],
-    "thorough": [SW("pairs", "sequential", emax=3, t=3)] + [S(lo, hi, SA + ",o_query") for (lo, hi) in DOMAINS_T[:-1]] + [S(-(1 << 31), (1 << 31) - 1, SA + ",o_query", coord="i64"), S(0, (1 << 32) - 1, SA + ",o_query", coord="u32"),
+    "quick": [SW("pairs", "sequential", emax=2, t=2)] + [SW("dpairs", lo=lo, hi=hi) for (lo, hi) in [(0, 16), (5, 37), (0, 63), (-7, 92), (0, 128)]] + [S(lo, hi, SA + ",o_query") for (lo, hi) in DOMAINS_Q],
+    "thorough": [SW("pairs", "sequential", emax=3, t=3)] + [SW("dpairs", lo=lo, hi=hi) for (lo, hi) in [(0, 16), (5, 37), (0, 63), (-7, 92), (0, 128), (-100, 99), (-2147483648, -2147483648 + 150), (2147483647 - 199, 2147483647)]] + [S(lo, hi, SA + ",o_query") for (lo, hi) in DOMAINS_T[:-1]] + [S(-(1 << 31), (1 << 31) - 1, SA + ",o_query", coord="i64"), S(0, (1 << 32) - 1, SA + ",o_query", coord="u32"),
                  S(0, 31, SA + ",o_query", pop=3, cap_s=1200), S(-7, 92, SA + ",o_query", pop=3, cap_s=1200)],
 }
 SPECS["C14"] = {
@@ -161,7 +161,7 @@ SPECS["C16"] = {
 INJ_M = MAW + ",o_ref,o_handle,o_rb,o_arena"
 INJ_K = KA + ",o_pred,o_rb,o_arena"
 SPECS["C18"] = {
-    "quick": [M("maptree", 4, INJ_M, inject=1), M("settree", 4, INJ_M, inject=1), M("maplist", 4, INJ_M, inject=1), M("setlist", 4, INJ_M, inject=1),
+    "quick": [K("ktree", 4, 1, INJ_K, inject=1), M("maptree", 4, INJ_M, inject=1), M("settree", 4, INJ_M, inject=1), M("maplist", 4, INJ_M, inject=1), M("setlist", 4, INJ_M, inject=1),
               K("ktree", 3, 2, INJ_K, inject=1), K("klist", 3, 2, INJ_K, inject=1), S(0, 31, SA + ",o_query,o_struct", inject=1), S(-7, 92, SA + ",o_query,o_struct", inject=1)],
     "thorough": [M("maptree", 5, INJ_M, inject=1), M("settree", 5, INJ_M, inject=1), M("maptree", 4, MA + ",o_ref,o_handle,o_rb,o_arena", inject=2), M("settree", 4, MA + ",o_ref,o_handle,o_rb,o_arena", inject=2),
                  M("maplist", 5, INJ_M, inject=2), M("setlist", 5, INJ_M, inject=2), M("maptree", 4, INJ_M, pay="heap", inject=1),
@@ -171,11 +171,11 @@ SPECS["C18"] = {
 ALL_M = MAW + ",o_ref,o_handle,o_neigh,o_hstab"
 ALL_K = KA + ",o_pred,o_get,o_export"
 SPECS["C10"] = {
-    "quick": [M("maptree", 5, ALL_M, crash=1), M("settree", 5, ALL_M, crash=1), M("maplist", 5, ALL_M, crash=1), M("setlist", 5, ALL_M, crash=1),
+    "quick": [K("ktree", 4, 2, ALL_K, crash=1), M("maptree", 5, ALL_M, crash=1), M("settree", 5, ALL_M, crash=1), M("maplist", 5, ALL_M, crash=1), M("setlist", 5, ALL_M, crash=1),
               M("maptree", 4, ALL_M, crash=1, hint=0, pay="heap"), M("settree", 4, ALL_M, crash=1, hint=1, pay="bare"), M("maptree", 10, "del,delh,clear,o_handle", mode="shape", crash=1, hint=9), M("settree", 10, "del,delh,clear,o_neigh", mode="shape", crash=1, hint=9), M("settree", 3, ALL_M, crash=1, hint=64),
               K("ktree", 3, 3, ALL_K, crash=1), K("klist", 3, 3, ALL_K, crash=1), K("ktree", 3, 2, ALL_K, crash=1, hint=0), K("ktree", 3, 2, ALL_K, crash=1, hint=64), K("ktree", 8, 0, "fleby,get,clear,o_export", mode="shape", crash=1, hint=9),
               S(0, 16, SA + ",o_query", crash=1), S(0, 31, SA + ",o_query", crash=1), S(-7, 92, SA + ",o_query", crash=1), S(-(1 << 31), (1 << 31) - 1, SA + ",o_query", crash=1),
-              SW("layout", lmax=600, all_coords=600, label="layout sweep (constructor and edge coordinates, process outcome only)"),
+              SW("layout", lmax=600, all_coords=600, label="layout sweep (constructor and edge coordinates, process outcome only)"), SW("dpairs", lo=0, hi=128, label="all insert x query range pairs on [0,128] (process outcome)"),
               SW("niche", type="key", label="KeyExpTree::new with a key type that has no all-zero value"), SW("niche", type="val", label="KeyExpTree::new with a value type that has no all-zero value"), SW("niche", type="list", label="KeyExpList with the same key type")],
     "thorough": [M("maptree", 7, MA + ",o_ref,o_handle,o_hstab", crash=1), M("settree", 7, MA + ",o_ref,o_handle,o_neigh,o_hstab", crash=1), M("maplist", 7, ALL_M, crash=1), M("setlist", 7, ALL_M, crash=1),
                  M("maptree", 5, ALL_M, crash=1, hint=0, pay="heap"), M("settree", 6, ALL_M, crash=1, hint=1, pay="bare"), M("maptree", 12, "del,delh,clear,o_handle", mode="shape", crash=1, hint=9), M("settree", 12, "del,delh,clear,o_neigh", mode="shape", crash=1, hint=9), M("settree", 5, ALL_M, crash=1, hint=64),
